@@ -30,9 +30,9 @@ LEVEL_TEXT = ("Machine-checked theorems over the model of convert_track for the 
 LEVEL_NOTE = ("Trusted: Lean kernel; Model/MdsCodec+MdsConv+MdsFile (agreement with mdsdrv.cpp by differential testing); Spec/SeqWf and Spec/SeqInterp (reconstructed MDSDRV format). "
               "Proved part = address arithmetic of the codec + per-stream well-formedness/safety at any offset + whole songs of the fragment, drum mode included (partial: chunk < 64 KiB, "
               "<= 1 loop point per channel track, called tracks without loop point / drum-mode switch, drum-mode switches outside loops, routine tracks = timeless commands before "
-              "their first note, loop section ending in the drum state it starts in, no pitch envelope/macro track/platform command, loop point at depth 0); the walker on "
-              "unreferenced / routine streams themselves, macro "
-              "tracks, platform commands and songs outside the domain = oracle on real bytes. Known finding: a loop point inside a counted loop is accepted and compiled to a jump into "
+              "their first note, loop section ending in the drum state it starts in, no pitch envelope, platform commands agreeing between converter and timeline, loop point at depth 0); the walker on "
+              "unreferenced / routine / macro streams themselves "
+              "and songs outside the domain = oracle on real bytes. Known finding: a loop point inside a counted loop is accepted and compiled to a jump into "
               "the loop (D21).")
 RULE = ("the C02 generators (adjacency sweep + structured songs) plus a degenerate family: empty track, loop point last, loop point followed only by zero-time commands, "
         "command-only loop bodies, single call, counts {1,2,255}, loop point inside loops and subroutines; non-trivial = has loop/call/segno; distinct by request text")
